@@ -216,10 +216,11 @@ def run_batch(prop, batch_seed, tier, nruns, budget_s, workers=None, chunk=None,
     return rep
 
 
-def execute_isolated(engine, scn):
+def execute_isolated(engine, scn, history=None):
     """Execute a scenario in a forked child of this (clean) process and return its Result. Used while minimising: the
     code under test may keep module-level state, so re-executions must not see each other's leftovers (and a replay in
-    a fresh interpreter must see what the minimiser saw)."""
+    a fresh interpreter must see what the minimiser saw). `history` is a list of scenarios executed (and not judged)
+    in the same child first: what the process had done before."""
     import pickle
 
     from .trace import Result
@@ -232,6 +233,11 @@ def execute_isolated(engine, scn):
         code = 1
         try:
             os.close(rfd)
+            for h in history or []:
+                try:
+                    execute_scenario(engine, h)
+                except Exception:
+                    pass
             res = execute_scenario(engine, scn)
             d = res.to_dict()
             with os.fdopen(wfd, "wb") as f:
@@ -253,3 +259,8 @@ def execute_isolated(engine, scn):
     for k in ("verdict", "vclass", "detail", "facts", "digest", "events", "faults", "probes", "signature", "nontrivial"):
         setattr(res, k, d[k])
     return res
+
+
+def scenario_of(engine, batch_seed, k, tier):
+    """Scenario k of a batch (generation only)."""
+    return engine.generate(rng_for(engine.PROPERTY, batch_seed, k), tier, k)
